@@ -7,7 +7,7 @@
 # Redistribution and use in source and binary forms, with or without
 # modification, are permitted under the terms of the BSD License. See
 # LICENSE file in the root of the Project.
-from numbers import Number
+from numbers import Number, Integral
 try:
     from collections.abc import Sequence
 except ImportError:
@@ -294,6 +294,8 @@ class Dimension:
                                  data_array, "DataArray", index)
 
     def link_data_frame(self, data_frame, index):
+        if not isinstance(index, Integral) or isinstance(index, bool):
+            raise TypeError("DataFrame column index must be an integer")
         if not 0 <= index < len(data_frame.columns):
             raise OutOfBounds("DataFrame index is out of bounds", index)
         if self.has_link:
